@@ -436,11 +436,13 @@ func (t *transitiveClosure) addElement(
 			return nil // already excluded
 		}
 		t.addImport(referrerFile, descriptorInfo.file.Path())
-		if existingMode == inclusionModeImplicit && !impliedByCustomOption {
-			// upgrade from implied to explicitly part of closure
-			t.elements[descriptor] = inclusionModeExplicit
+		if existingMode != inclusionModeImplicit || impliedByCustomOption {
+			return nil // already added this element
 		}
-		return nil // already added this element
+		// Upgrade from implied to explicitly part of closure. What this element
+		// references was added as implied as well, so visit it again: otherwise
+		// the result depends on whether the element was first reached through a
+		// custom option or directly, i.e. on the order the types are processed in.
 	}
 	if impliedByCustomOption {
 		t.elements[descriptor] = inclusionModeImplicit
